@@ -477,6 +477,10 @@ func (s *Sim) Setup() {
 				s.injectForeignPod("other-ns", e.OldDS+"-x-"+n.Name, n.Name, map[string]string{"app": "legacy"}, e.OldDS)
 				s.injectForeignPod(e.NS, "aaa-other-"+n.Name, n.Name, map[string]string{"app": "legacy"}, "other-ds")
 				s.injectForeignPod(e.NS, "zzz-bare-"+n.Name, n.Name, map[string]string{"app": "legacy"}, "")
+				if i%3 == 1 {
+					// owned by an object of another kind that happens to have the old DaemonSet's name
+					s.injectForeignPod(e.NS, "sts-"+n.Name, n.Name, map[string]string{"app": "legacy"}, "StatefulSet/"+e.OldDS)
+				}
 			}
 		}
 	}
